@@ -288,11 +288,36 @@ pub enum AiReply {
     CloseAfter { after: usize },
     /// The connection is reset (ECONNRESET) after `after` bytes of an otherwise valid response.
     ResetAfter { after: usize },
+    /// 429 whose error type is `insufficient_quota`: the client library does not retry it.
+    QuotaExceeded,
+    /// The first `times` requests for this prompt are answered with a retryable status (429 "rate
+    /// limited", or a 5xx), every later one with `then`. The client library retries with
+    /// exponential backoff (0.5 s growing to 60 s); the simulated clock makes that free.
+    RetryThen { code: u16, times: u32, then: Box<AiReply> },
+    /// Every request for this prompt is answered with a retryable status: the retries must give up
+    /// (the library's budget is 15 minutes) and the run must fail.
+    RetryForever { code: u16 },
 }
 
 impl AiReply {
     pub fn is_fault(&self) -> bool {
-        !matches!(self, AiReply::Text(_))
+        match self {
+            AiReply::Text(_) => false,
+            AiReply::RetryThen { then, .. } => then.is_fault(),
+            _ => true,
+        }
+    }
+    /// Extra requests the client library may send for one block because of retryable statuses
+    /// (None: unbounded, the endpoint never stops sending them).
+    pub fn retry_allowance(&self) -> Option<u32> {
+        match self {
+            AiReply::RetryThen { times, .. } => Some(*times),
+            AiReply::RetryForever { .. } => None,
+            _ => Some(0),
+        }
+    }
+    pub fn uses_retries(&self) -> bool {
+        matches!(self, AiReply::RetryThen { .. } | AiReply::RetryForever { .. })
     }
     pub fn kind_name(&self) -> &'static str {
         match self {
@@ -305,6 +330,9 @@ impl AiReply {
             AiReply::EmptyBody => "empty_body",
             AiReply::CloseAfter { .. } => "close_after",
             AiReply::ResetAfter { .. } => "reset_after",
+            AiReply::QuotaExceeded => "quota_exceeded",
+            AiReply::RetryThen { .. } => "retry_then_reply",
+            AiReply::RetryForever { .. } => "retry_forever",
         }
     }
 }
